@@ -61,6 +61,9 @@ func HarnessC17MidiIn() {
 			sounding = [2][2]bool{}
 		}
 	}
+	// velocities are arbitrary: a Note On sounds with any velocity 1..127, a Note Off clears with any release velocity
+	onVel, offVel := verifrt.U8("c17.onvel"), verifrt.U8("c17.offvel")
+	verifrt.Assume(onVel >= 1 && onVel <= 127 && offVel <= 127)
 	fed := false
 	go func() {
 		for i := 0; i < n; i++ {
@@ -68,9 +71,9 @@ func HarnessC17MidiIn() {
 			ch, note := chans[m.ch], notes[m.note]
 			switch m.kind {
 			case 0:
-				midiIn <- midi.NoteEvent(midi.NoteOn, ch, note, 100)
+				midiIn <- midi.NoteEvent(midi.NoteOn, ch, note, onVel)
 			case 1:
-				midiIn <- midi.NoteEvent(midi.NoteOff, ch, note, 0)
+				midiIn <- midi.NoteEvent(midi.NoteOff, ch, note, offVel)
 			case 2:
 				midiIn <- midi.NoteEvent(midi.NoteOn, ch, note, 0)
 			case 3:
